@@ -10,7 +10,7 @@ open EPV.Syn
 
 /-- allowed first token of a lookup key: name, integer, or a symbol whose `nud` is a parenthesis -/
 def keyCode (T : Tbl) (code : Nat) : Bool :=
-  code == 2 || code == 4 || code == 16 ||
+  code == 2 || code == 4 || code == 16 || code == 14 ||
     (code % 2 == 1 && match T.nud (code / 2) with | .group _ _ => true | _ => false)
 
 /-- symbol `o`: what the table says it does agrees with its level and kind in the grammar.
@@ -45,10 +45,10 @@ def rowOk (T : Tbl) (G : Gram) (bp : Nat → Nat) (K : Nat) (o : Nat) : Bool :=
    | .none => true
    | .other => true) &&
   (match T.nud o with
-   | .prefix r =>
+   | .prefix r rhs =>
       match G.pre o with
-      | some j => decide (j < G.top) && 2 * r + 1 == bp j && G.lkind j == some .prefix
-      | none => false
+      | some j => !G.ulk o && decide (j < G.top) && 2 * r + 1 == bp j && G.lkind j == some .prefix && decide (r ≤ K)
+      | none => G.ulk o && r == K && !rhs.isEmpty && rhs.all (keyCode T)
    | .group c eo => G.grp o == some (c, eo)
    | .none => true
    | .other => true)
@@ -140,16 +140,20 @@ theorem bracket_info (hc : Consistent T G bp K) {o c : Nat} {eo : Bool} {deny : 
     exact ⟨j, hg, h3, h4, h5, h6⟩
   · simp at h
 
-theorem prefix_info (hc : Consistent T G bp K) {p r : Nat} (hnud : T.nud p = .prefix r) :
-    ∃ j, G.pre p = some j ∧ j < G.top ∧ 2 * r + 1 = bp j ∧ G.lkind j = some .prefix := by
+/-- what `rowOk` says about a prefix symbol: an ordinary prefix operator of a prefix level, or the unary lookup
+(a primary: its rbp is the largest binding power and its next-token check admits key specifiers only) -/
+theorem prefix_info (hc : Consistent T G bp K) {p r : Nat} {rhs : List Nat} (hnud : T.nud p = .prefix r rhs) :
+    (∃ j, G.ulk p = false ∧ G.pre p = some j ∧ j < G.top ∧ 2 * r + 1 = bp j ∧ G.lkind j = some .prefix ∧ r ≤ K) ∨
+    (G.ulk p = true ∧ r = K ∧ rhs ≠ [] ∧ ∀ c ∈ rhs, keyCode T c = true) := by
   have h := hc.rows p
   simp only [rowOk, hnud, Bool.and_eq_true] at h
   obtain ⟨-, h⟩ := h
   split at h
   · rename_i j hg
-    simp only [Bool.and_eq_true, decide_eq_true_eq, beq_iff_eq] at h
-    exact ⟨j, hg, h.1.1, h.1.2, h.2⟩
-  · simp at h
+    simp only [Bool.and_eq_true, decide_eq_true_eq, beq_iff_eq, Bool.not_eq_true'] at h
+    exact Or.inl ⟨j, h.1.1.1.1, hg, h.1.1.1.2, h.1.1.2, h.1.2, h.2⟩
+  · simp only [Bool.and_eq_true, beq_iff_eq, Bool.not_eq_true', List.isEmpty_eq_false_iff, List.all_eq_true] at h
+    exact Or.inr ⟨h.1.1.1, h.1.1.2, h.1.2, h.2⟩
 
 theorem group_info (hc : Consistent T G bp K) {g c : Nat} {eo : Bool} (hnud : T.nud g = .group c eo) :
     G.grp g = some (c, eo) := by
@@ -172,8 +176,9 @@ theorem top_info {T : Tbl} {G : Gram} {bp : Nat → Nat} {K : Nat} (hc : Consist
   | group => simp [lvl] at hlt
   | pre p x =>
     cases hn : T.nud p <;> simp only [WFr, hn] at h
-    obtain ⟨j, hg, hj, -, hk⟩ := hc.prefix_info hn
-    right; left; simp [lvl, hg, hk, Tree.isPre]
+    rcases hc.prefix_info hn with ⟨j, hu, hg, hj, -, hk, -⟩ | ⟨hu, -⟩
+    · right; left; simp [lvl, hu, hg, hk, Tree.isPre]
+    · simp [lvl, hu] at hlt
   | bin o l r =>
     cases hl : T.led o <;> simp only [WFr, hl] at h
     obtain ⟨j, k, hg, hj, -, hk⟩ := hc.infix_info hl
@@ -200,11 +205,12 @@ theorem left_level {T : Tbl} {G : Gram} {bp : Nat → Nat} {K : Nat} (hc : Consi
   | group => left; simp [lvl]; omega
   | pre p x =>
     cases hn : T.nud p <;> simp only [WFr, hn] at h
-    obtain ⟨j', hg, hj', hr, -⟩ := hc.prefix_info hn
     left
-    simp only [rclose, nudRbp, hn, leO] at hle
-    have := hc.le_of_bp_le hj hj' (by omega)
-    simpa [lvl, hg] using this
+    rcases hc.prefix_info hn with ⟨j', hu, hg, hj', hr, -⟩ | ⟨hu, -⟩
+    · simp only [rclose, nudRbp, hn, leO] at hle
+      have := hc.le_of_bp_le hj hj' (by omega)
+      simpa [lvl, hu, hg] using this
+    · simp [lvl, hu]; omega
   | bin o l r =>
     cases hl : T.led o <;> simp only [WFr, hl] at h
     obtain ⟨j', k, hg, hj', -, hk⟩ := hc.infix_info hl
@@ -275,8 +281,9 @@ theorem key_spec {T : Tbl} {G : Gram} {bp : Nat → Nat} {K : Nat} (hc : Consist
   | atom k n =>
     simp only [Tree.yield, tokCode, keyCode, Bool.or_eq_true, beq_iff_eq, Bool.and_eq_true] at hk
     simp only [Tree.isKeySpec, Bool.or_eq_true, beq_iff_eq]
-    rcases hk with ((h1 | h1) | h1) | ⟨h1, -⟩
-    · left; left; omega
+    rcases hk with (((h1 | h1) | h1) | h1) | ⟨h1, -⟩
+    · left; left; left; omega
+    · left; left; right; omega
     · left; right; omega
     · right; omega
     · omega
@@ -285,7 +292,8 @@ theorem key_spec {T : Tbl} {G : Gram} {bp : Nat → Nat} {K : Nat} (hc : Consist
     exfalso
     cases hn : T.nud p <;> simp only [WFr, hn] at h
     simp only [Tree.yield, tokCode, keyCode, Bool.or_eq_true, beq_iff_eq, Bool.and_eq_true] at hk
-    rcases hk with ((h1 | h1) | h1) | ⟨-, h2⟩
+    rcases hk with (((h1 | h1) | h1) | h1) | ⟨-, h2⟩
+    · omega
     · omega
     · omega
     · omega
@@ -331,13 +339,17 @@ theorem wfr_relaxed {T : Tbl} {G : Gram} {bp : Nat → Nat} {K : Nat} (hc : Cons
   | pre p x ih =>
     intro h
     cases hn : T.nud p <;> simp only [WFr, hn] at h
-    obtain ⟨j, hg, hj, hb, hpk⟩ := hc.prefix_info hn
-    have hr := right_level hc hj (by rw [hpk]; simp) (by omega) x h.1 h.2
-    simp only [wf, hg, Bool.not_false, Bool.true_and, Bool.and_eq_true, Bool.or_eq_true, decide_eq_true_eq]
-    refine ⟨?_, ih h.1⟩
-    rcases hr with hr | hr
-    · left; omega
-    · right; exact hr
+    rcases hc.prefix_info hn with ⟨j, hu, hg, hj, hb, hpk, -⟩ | ⟨hu, rfl, hne, hall⟩
+    · have hr := right_level hc hj (by rw [hpk]; simp) (by omega) x h.1 h.2.1
+      simp only [wf, hu, hg, Bool.false_eq_true, if_false, Bool.not_false, Bool.true_and, Bool.and_eq_true, Bool.or_eq_true,
+        decide_eq_true_eq]
+      refine ⟨?_, ih h.1⟩
+      rcases hr with hr | hr
+      · left; omega
+      · right; exact hr
+    · have hks := key_spec hc hne hall x h.1 h.2.1 h.2.2
+      simp only [wf, hu, if_true, Bool.and_eq_true]
+      exact ⟨hks, ih h.1⟩
   | bin o l r ihl ihr =>
     intro h
     cases hl : T.led o <;> simp only [WFr, hl] at h
